@@ -9,7 +9,7 @@ import PyYetiVerif.Props.C13Multi
 import PyYetiVerif.Props.C13Values
 import PyYetiVerif.Props.C13Uset
 import PyYetiVerif.Props.C13Set
-import PyYetiVerif.Props.C13ValuesFixed
+import PyYetiVerif.Props.C13ValuesTab
 #print axioms PyYetiVerif.C13.thru_roundtrip
 #print axioms PyYetiVerif.C13.thru_maximal
 #print axioms PyYetiVerif.C13.nasints_layout
@@ -81,8 +81,6 @@ import PyYetiVerif.Props.C13ValuesFixed
 #print axioms PyYetiVerif.C13.set_roundtrip_iff_partial
 #print axioms PyYetiVerif.C13.dmig_field_fits
 #print axioms PyYetiVerif.C13.dmig_terms_in_range
-#print axioms PyYetiVerif.C13.tabled1_field_overflow_counterexample
-#print axioms PyYetiVerif.C13.tabled1_roundtrip_values_fixed
-#print axioms PyYetiVerif.C13.tabled1_fixed_all_doubles
-#print axioms PyYetiVerif.C13.tabled1_fixed_eq_current
-#print axioms PyYetiVerif.C13.tabled1_fixed_differs_iff
+#print axioms PyYetiVerif.C13.tabled1_all_doubles
+#print axioms PyYetiVerif.C13.tabled1_default_eq_before_fix
+#print axioms PyYetiVerif.C13.tabled1_default_differs_iff
